@@ -46,6 +46,17 @@ def forms(doc, tx, rnd):
                 {"part.jst": text_of(rng[:a]), "sub/mid.jst": text_of(rng[a:b] + [inc("part.jst")]), "sub/part.jst": text_of(rng[b:])}))
     res.append(("with_empty_and_comment_files", pre + [inc("e.jst"), inc("inc1.jst"), inc("c.jst")] + post,
                 {"inc1.jst": text_of(rng), "e.jst": "", "c.jst": "# only a comment\n\n"}))
+    # MACRO and INCLUDE together: the definition of a macro in an included file, its PASTE in another one
+    MACROABLE = {"info", "server", "type", "enum", "url", "method", "rpc"}
+    if all(b["t"] in MACROABLE for b in rng):
+        mac = {"t": "macro", "name": "@zim", "items": rng}
+        pst = {"t": "paste", "name": "@zim"}
+        # (compared with the same macro form written in one file: a macro form can be unacceptable for reasons of its own)
+        res.append(("macro_defined_in_include", pre + [pst] + post + [inc("macros/defs.jst")], {"macros/defs.jst": text_of([mac])},
+                    pre + [pst] + post + [mac]))
+        res.append(("paste_in_include", [mac] + pre + [inc("uses.jst")] + post, {"uses.jst": text_of([pst])}, [mac] + pre + [pst] + post))
+        res.append(("macro_and_paste_in_two_includes", pre + [inc("a/uses.jst")] + post + [inc("b/defs.jst")],
+                    {"a/uses.jst": text_of([pst]), "b/defs.jst": text_of([mac])}, pre + [pst] + post + [mac]))
     for i, b in enumerate(doc):
         if b["t"] == "url" and b["methods"]:
             nb = copy.deepcopy(b)
@@ -113,19 +124,24 @@ def main(tier):
         fl = forms(d, m["tx"][0], rnd)
         flat, multi, tf = twice_form(d)
         cases.append(rel.case("t%d" % n, apidoc.render(flat)[0]))
-        for nm, main_blocks, files in fl + [("same_file_twice", multi, tf)]:
+        for form in fl + [("same_file_twice", multi, tf)]:
+            nm, main_blocks, files = form[:3]
             cid = "i%d_%s" % (n, nm)
             main_text = apidoc.render(main_blocks)[0]
             ff = {"main.jst": b64(main_text)}
             ff.update({k: b64(v) for k, v in files.items()})
             cases.append({"id": cid, "files": ff, "root": "main.jst", "outside": ["outside/canary.jst"]})
-            meta[cid] = ("t%d" % n if nm == "same_file_twice" else "b%d" % n, nm, m, main_text, files)
+            baseid = "t%d" % n if nm == "same_file_twice" else "b%d" % n
+            if len(form) > 3:             # a form with a single-file equivalent of its own
+                baseid = "o%d_%s" % (n, nm)
+                cases.append(rel.case(baseid, apidoc.render(form[3])[0]))
+            meta[cid] = (baseid, nm, m, main_text, files)
             # the same project opened through other spellings of the root path
             if n % 3 == 0:
                 for k, spelling in enumerate(["./main.jst", ".//main.jst", "sub/../main.jst" if any(x.startswith("sub/") for x in files) else "././main.jst"]):
                     rid = cid + "_root%d" % k
                     cases.append({"id": rid, "files": ff, "root": "main.jst", "rawroot": spelling})
-                    meta[rid] = ("t%d" % n if nm == "same_file_twice" else "b%d" % n, nm + ":root=" + spelling, m, main_text, files)
+                    meta[rid] = (baseid, nm + ":root=" + spelling, m, main_text, files)
         if n % (1 if tier == "thorough" else 10) == 0:
             for nm, main_blocks, files, dirs, noread in reject_cases(d):
                 if nm == "unreadable" and os.geteuid() == 0:
